@@ -139,6 +139,11 @@ Proof. unfold is_dispose, cli_is. cbn. apply Z.eqb_refl. Qed.
 Lemma is_dispose_other p q : q <> p -> is_dispose q (EvCli "dispose" [p]) = false.
 Proof. unfold is_dispose, cli_is. cbn. intros H. apply Z.eqb_neq. congruence. Qed.
 
+Lemma is_dispose_retire q p : is_dispose q (EvCli "retire" [p]) = false. Proof. reflexivity. Qed.
+Lemma is_retire_dispose q p : is_retire q (EvCli "dispose" [p]) = false. Proof. reflexivity. Qed.
+Lemma is_retire_done q : is_retire q (EvCli "done" []) = false. Proof. reflexivity. Qed.
+Lemma is_dispose_done q : is_dispose q (EvCli "done" []) = false. Proof. reflexivity. Qed.
+
 (** "retire p": the object is in the caller's hands *)
 Lemma InvB_retire N g h d tr t p :
   (t < N)%nat -> d t = false -> InvB N g (h, d) tr -> InvB N g ((t, p) :: h, d) (tr ++ [(t, EvCli "retire" [p])]).
@@ -147,8 +152,8 @@ Proof.
   - intros q. unfold nret, ndisp. rewrite !cnt_ev_snoc. cbn [map snd]. rewrite cz_cons.
     specialize (H1 q). unfold nret, ndisp in H1.
     destruct (Z.eq_dec p q) as [->|Nq].
-    + rewrite is_retire_self. change (is_dispose q (EvCli "retire" [q])) with false. lia.
-    + rewrite is_retire_other by congruence. change (is_dispose q (EvCli "retire" [p])) with false. lia.
+    + rewrite is_retire_self, is_dispose_retire. lia.
+    + rewrite is_retire_other by congruence. rewrite is_dispose_retire. lia.
   - intros t0 Hd. destruct (Nat.eq_dec t0 t) as [->|Ne]; [congruence|]. rewrite mine_cons_other by exact Ne. apply H3; exact Hd.
   - intros x [<-|Hx]; [exact Ht|apply H4; exact Hx].
   - intros t0 i Hat. destruct (at_snoc_inv _ _ _ _ _ _ Hat) as [Hat'|(_ & _ & X)]; [eapply H5; eauto|discriminate].
@@ -188,7 +193,7 @@ Lemma InvB_dispose N g h d tr t p hs :
 Proof.
   intros Hm [H1 H3 H4 H5]. cbn [fst snd] in *. pose proof (mine_head_in _ _ _ _ Hm) as Hin. constructor; cbn [fst snd].
   - intros q. unfold nret, ndisp. rewrite !cnt_ev_snoc. specialize (H1 q). unfold nret, ndisp in H1.
-    pose proof (cz_rm1 t p h q Hin) as X. change (is_retire q (EvCli "dispose" [p])) with false.
+    pose proof (cz_rm1 t p h q Hin) as X. rewrite is_retire_dispose.
     destruct (Z.eq_dec p q) as [->|Nq].
     + rewrite is_dispose_self. lia.
     + rewrite is_dispose_other by congruence. lia.
@@ -206,7 +211,7 @@ Lemma InvB_done N g h d tr t :
 Proof.
   intros Hm [H1 H3 H4 H5]. cbn [fst snd] in *. constructor; cbn [fst snd]; auto.
   - intros q. unfold nret, ndisp. rewrite !cnt_ev_snoc. specialize (H1 q). unfold nret, ndisp in H1.
-    change (is_retire q (EvCli "done" [])) with false. change (is_dispose q (EvCli "done" [])) with false. lia.
+    rewrite is_retire_done, is_dispose_done. lia.
   - intros t0. destruct (Nat.eqb_spec t0 t) as [->|Ne]; [intros _; exact Hm|apply H3].
   - intros t0 i Hat. destruct (at_snoc_inv _ _ _ _ _ _ Hat) as [Hat'|(_ & -> & _)].
     + destruct (Nat.eqb t0 t); [reflexivity|eapply H5; eauto].
